@@ -284,6 +284,64 @@ theorem same_order_same_state (s0 : σ) (progs : List (List (Call σ))) (s1 s2 :
     (d1 : c1.holder = none) (d2 : c2.holder = none) (ho : c1.order = c2.order) : c1.st = c2.st := by
   rw [locked_serializable s0 progs s1 c1 h1 d1, locked_serializable s0 progs s2 c2 h2 d2, ho]
 
+/-! ## every call appears exactly once in the serial order -/
+
+theorem flatten_set_perm {α : Type} : ∀ (l : List (List α)) (t : Nat) (c : α) (rest : List α),
+    l[t]? = some (c :: rest) → l.flatten.Perm (c :: (l.set t rest).flatten) := by
+  intro l
+  induction l with
+  | nil => intro t c rest h; simp at h
+  | cons x xs ih =>
+    intro t c rest h
+    cases t with
+    | zero =>
+      simp only [List.getElem?_cons_zero, Option.some.injEq] at h
+      subst h
+      simp
+    | succ t =>
+      simp only [List.getElem?_cons_succ] at h
+      have := ih t c rest h
+      simp only [List.set_cons_succ, List.flatten_cons]
+      exact (List.Perm.append_left x this).trans List.perm_middle
+
+theorem flatten_of_all_empty {α : Type} (l : List (List α)) (h : l.all List.isEmpty = true) :
+    l.flatten = [] := by
+  induction l with
+  | nil => rfl
+  | cons x xs ih =>
+    simp only [List.all_cons, Bool.and_eq_true] at h
+    have hx : x = [] := by simpa using h.1
+    simp [hx, ih h.2]
+
+/-- **Every call is reflected exactly once**: for a trace that fits the programs, the serial
+order read off the `enter` events is a permutation of all calls of all threads. -/
+theorem enterOrder_perm {α : Type} : ∀ (tr : List (Event ν)) (progs : List (List α)),
+    fits progs tr = true → (enterOrder progs tr).Perm progs.flatten := by
+  intro tr
+  induction tr with
+  | nil =>
+    intro progs hf
+    simp only [fits] at hf
+    rw [flatten_of_all_empty progs hf]
+    exact List.Perm.refl _
+  | cons e tr ih =>
+    intro progs hf
+    cases hk : e.kind with
+    | enter =>
+      simp only [fits, hk] at hf
+      cases hp : progs[e.thread]? with
+      | none => simp [hp] at hf
+      | some l =>
+        cases l with
+        | nil => simp [hp] at hf
+        | cons c rest =>
+          simp only [hp] at hf
+          simp only [enterOrder, hk, hp]
+          exact ((ih _ hf).cons c).trans (flatten_set_perm progs e.thread c rest hp).symm
+    | exit => simp only [fits, hk] at hf; simpa [enterOrder, hk] using ih progs hf
+    | inside => simp only [fits, hk] at hf; simpa [enterOrder, hk] using ih progs hf
+    | free => simp only [fits, hk] at hf; simpa [enterOrder, hk] using ih progs hf
+
 /-! ## 3. instantiation with the contents state -/
 
 open SL.Handles
